@@ -11,19 +11,23 @@ def parseRatTok? (s : String) : Option Rat :=
     if b == 0 then none else pure ((a : Rat) / (b : Rat))
   | _ => none
 
-def parseStep? (s : String) : Option ClipStep :=
+/-- `p:c` a shape, `g:s:f` a shape with its own clip path, `n:s:f1:f2` a shape with its own clip path
+    instantiated by a group that has a clip path too -/
+def parseNode? (s : String) : Option ClipNode :=
   match s.splitOn ":" with
-  | ["p", c] => (parseRatTok? c).map ClipStep.plain
-  | ["g", a, f] => do pure (ClipStep.clippedGroup (← parseRatTok? a) (← parseRatTok? f))
+  | ["p", c] => (parseRatTok? c).map ClipNode.plain
+  | ["g", a, f] => do pure (ClipNode.group (some (← parseRatTok? f)) [.plain (← parseRatTok? a)])
+  | ["n", a, f1, f2] => do
+    pure (ClipNode.group (some (← parseRatTok? f2)) [.group (some (← parseRatTok? f1)) [.plain (← parseRatTok? a)]])
   | _ => none
 
-/-- `clipf nested step…` → the resulting alpha of an opaque target pixel, 0..255 -/
+/-- `clipf nested node…` → the resulting alpha of an opaque target pixel, 0..255 -/
 def handleClip (args : List String) : String :=
   match args with
-  | n :: steps =>
-    match parseRatTok? n, allSome (steps.map parseStep?) with
+  | n :: nodes =>
+    match parseRatTok? n, allSome (nodes.map parseNode?) with
     | some n, some st =>
-      let f := clipFactor n st
+      let f := clipFactorTree true n st
       toString ((f * 255 + 1 / 2).floor)
     | _, _ => "bad-op"
   | _ => "bad-op"
